@@ -63,7 +63,7 @@ pub enum RefSlice {
     /// in range, `col` on a character boundary: exactly these characters
     Exactly(String),
     /// in range, `col` strictly inside a surrogate pair: the statement does not say which half
-    /// wins (crash-freedom and "a returned slice is a substring of the line" only)
+    /// wins at the start (accepted: the slice with and the slice without that pair)
     InsidePair,
 }
 
